@@ -12,6 +12,12 @@ CONSTANT Mode          \* "c01": accept/reject only; "c09": positions of rejecte
 
 Trace == ndJsonDeserialize("trace.ndjson")
 N == Len(Trace)
+\* A case may carry `pad`: the real input was that many spaces followed by b (long, refill-aligned inputs).  Leading white
+\* space leaves the machine in "Top" whatever its length, so the padded case starts there instead of being fed byte by byte.
+Pad(k) == IF k <= N /\ "pad" \in DOMAIN Trace[k] THEN Trace[k].pad ELSE 0
+Padded == Step(S0, 32)
+ASSUME PadIsIdle == Step(Padded, 32) = Padded /\ ~Dead(Padded)
+StartSt(k) == IF Pad(k) > 0 THEN Padded ELSE S0
 
 VARIABLES c,       \* case being consumed
           i,       \* next byte of the case
@@ -21,7 +27,7 @@ VARIABLES c,       \* case being consumed
           nl       \* index of the last newline consumed (0 = none)
 tvars == <<st, hist, c, i, errAt, pre, ln, nl>>
 
-TraceInit == /\ st = S0 /\ hist = <<>> /\ c = 1 /\ i = 1 /\ errAt = 0 /\ pre = S0 /\ ln = 1 /\ nl = 0
+TraceInit == /\ st = StartSt(1) /\ hist = <<>> /\ c = 1 /\ i = 1 /\ errAt = 0 /\ pre = S0 /\ ln = 1 /\ nl = 0
              /\ TLCSet(1, <<>>) /\ TLCSet(2, 0) /\ TLCSet(3, 0)
 
 TFeed == /\ c <= N /\ i <= Len(Trace[c].b) /\ ~Dead(st)
@@ -35,15 +41,15 @@ TFeed == /\ c <= N /\ i <= Len(Trace[c].b) /\ ~Dead(st)
 
 Bytes == Trace[c].b
 \* inputs on which the statement is silent: a BOM followed by no document
-Silent == Len(Bytes) >= 3 /\ SubSeq(Bytes, 1, 3) = <<239, 187, 191>> /\ ~Dead(st) /\ ~HasDoc(st) /\ st.stack = <<>> /\ st.pc = "Top"
+Silent == Pad(c) = 0 /\ Len(Bytes) >= 3 /\ SubSeq(Bytes, 1, 3) = <<239, 187, 191>> /\ ~Dead(st) /\ ~HasDoc(st) /\ st.stack = <<>> /\ st.pc = "Top"
 Expect == IF Accepts(st) THEN 1 ELSE 0
 \* the specification transition at which the input is rejected
 RejLocus == IF errAt > 0 THEN <<pre.pc, Rep(Bytes[errAt]), TopOf(pre)>> ELSE <<st.pc, -1, TopOf(st)>>
 \* position of the offending byte (or just past the end): lines end at \n, columns count bytes (= LineOf/ColOf of JsonText,
 \* maintained incrementally by TFeed)
 ExpLine == ln
-ExpCol  == (IF errAt > 0 THEN errAt ELSE Len(Bytes) + 1) - nl
-HasBom  == Len(Bytes) >= 1 /\ Bytes[1] = 239
+ExpCol  == (IF errAt > 0 THEN errAt ELSE Len(Bytes) + 1) - nl + (IF nl = 0 THEN Pad(c) ELSE 0)
+HasBom  == Pad(c) = 0 /\ Len(Bytes) >= 1 /\ Bytes[1] = 239
 
 BadC01(g) == IF g.r = 2 THEN [i |-> c, as |-> g.as, kind |-> "panic", loc |-> RejLocus, m |-> g.m]
              ELSE IF Expect = 0 THEN [i |-> c, as |-> g.as, kind |-> "accepts-invalid", loc |-> RejLocus, m |-> ""]
@@ -58,7 +64,7 @@ JudgeC09 == IF Expect = 1 \/ HasBom THEN <<>>
                                          nl |-> ExpLine > 1]]
 
 TEnd == /\ c <= N /\ (i > Len(Trace[c].b) \/ Dead(st))
-        /\ c' = c + 1 /\ i' = 1 /\ st' = S0 /\ errAt' = 0 /\ pre' = S0 /\ ln' = 1 /\ nl' = 0 /\ UNCHANGED hist
+        /\ c' = c + 1 /\ i' = 1 /\ st' = StartSt(c + 1) /\ errAt' = 0 /\ pre' = S0 /\ ln' = 1 /\ nl' = 0 /\ UNCHANGED hist
         /\ LET j == IF Mode = "c01" THEN JudgeC01 ELSE JudgeC09 IN
            /\ (IF j = <<>> \/ Len(TLCGet(1)) >= MaxBad THEN TRUE ELSE TLCSet(1, TLCGet(1) \o j))
            /\ (IF j = <<>> THEN TRUE ELSE TLCSet(3, TLCGet(3) + Len(j)))
